@@ -55,3 +55,8 @@ contract("shexer.io.sparql.query:_add_corners_if_needed", params={"target_elem":
     raises=[], props=["C15"],
     note="every cell the endpoint types as IRI - whatever its scheme (http, urn, mailto, tel ...) - is delivered in <...> form, so the remote graph "
          "classifies it as IRI exactly like the local parser; other cells are passed through untouched")
+
+contract("shexer.utils.uri:add_corners_if_it_is_an_uri", params={"a_candidate_uri": Str}, returns=Str,
+    ensures=["result == ite(a_candidate_uri.startswith('http://') or a_candidate_uri.startswith('https://'), '<' + a_candidate_uri + '>', a_candidate_uri)"],
+    raises=[], props=["C15"],
+    note="only a cell that starts with a URL scheme separator is taken for an IRI on the endpoint path: a string such as 'httpd 2.4' stays a literal")
